@@ -980,14 +980,17 @@ fn witness_inner(ctx: &mut Ctx, r: &mut Rng, i: u64) -> Option<()> {
             }
             ctx.sample("witness.daedalus", || det());
             // informational: arbitrary 96 bytes are accepted as a legacy key (no structure check by design)
-            if i % 64 == 3 {
+            if i % 8 == 3 {
                 let raw = r.bytes(96);
                 if let Ok(Ok(k2)) = guard(|| LegacyDaedalusPrivateKey::from_bytes(&raw)) {
-                    if let Ok((vk, sg)) = guard(|| {
+                    match guard(|| {
                         let w = make_daedalus_bootstrap_witness(&th, &addr, &k2);
                         (w.vkey().public_key().as_bytes(), w.signature().to_bytes())
                     }) {
-                        ctx.bucket(&format!("info.unclamped-daedalus.bit255-{}.verify-{}", raw[31] >> 7, if o_verify(&h, &vk, &sg) { "ok" } else { "fail" }));
+                        Ok((vk, sg)) => ctx.bucket(&format!("info.unclamped-daedalus.bit255-{}.verify-{}", raw[31] >> 7, if o_verify(&h, &vk, &sg) { "ok" } else { "fail" })),
+                        // whether such a signature verifies is informational; that the helper RETURNS for a key the
+                        // constructor accepted is not
+                        Err(p) => ctx.violation(&format!("make_daedalus_bootstrap_witness/{}", p.sig()), json!({"daedalus_key": hx(&raw), "note": "LegacyDaedalusPrivateKey::from_bytes accepted these 96 bytes"})),
                     }
                 }
             }
